@@ -353,6 +353,9 @@ class Ctx:
             "violations": len(self.violations),
         }
         evdir = os.path.join(VERIF, "evidence") if REPO == "/repo" else "/tmp/verif-alt-evidence"
+        if self.prop.startswith("X") and REPO == "/repo":
+            # extension modules (beyond the listed properties): not part of MANIFEST.json
+            evdir = os.path.join(VERIF, "evidence_ext")
         os.makedirs(evdir, exist_ok=True)
         path = os.path.join(evdir, "%s.json" % self.prop)
         with open(path + ".tmp", "w") as f:
